@@ -482,4 +482,9 @@ example : stepOp (.sres "[0:0:0:0:0:0:0:1]:80".toUTF8.toList) =
     Inet.parse6 (Inet.print6 [0, 0, 0, 0, 0, 0, 0, 0, 0, 0, 0, 0, 0, 0, 0, 1]) = some [0, 0, 0, 0, 0, 0, 0, 0, 0, 0, 0, 0, 0, 0, 0, 1] ∧
     0x3a ∈ Inet.print6 [0, 0, 0, 0, 0, 0, 0, 0, 0, 0, 0, 0, 0, 0, 0, 1] := by decide +kernel
 
+/-- `abi`: the platform constants the models of sock.c / sock_util.c are written for, as `stepOp` prints them (the
+    harness prints the C compiler's; a difference is an L2 divergence). -/
+theorem exec_abi : stepOp .abi = .abi 1 2 10 1 108 110 16 28 := rfl
+example : stepOp .abi ≠ .ooc := by decide
+
 end Percival.C17
